@@ -142,6 +142,22 @@ class Event:
         return 'Event(%s,%r)' % (self.kind, self.data)
 
 
+class _Assuming:
+    def __init__(self, ctx, b):
+        self.ctx = ctx
+        self.b = b
+
+    def __enter__(self):
+        self.n = len(self.ctx.pc)
+        self.ctx.pc.append(self.b)
+        self.ctx.temp_depth += 1
+
+    def __exit__(self, *a):
+        del self.ctx.pc[self.n:]
+        self.ctx.temp_depth -= 1
+        return False
+
+
 class Ctx:
     """One symbolic run."""
 
@@ -159,6 +175,7 @@ class Ctx:
         self.side = []               # (label, z3 bool, pc snapshot) div-safe
         self.index_facts = []        # callables i -> z3 bool, hold for all i
         self.goal_mode = False       # evaluating a proof goal (positive)
+        self.temp_depth = 0          # inside a temporary assumption
 
     # ---------------------------------------------------------- basics
     def fresh(self, name, sort='real'):
@@ -204,6 +221,9 @@ class Ctx:
         else:
             can_t = self.feasible(c)
             can_f = self.feasible(z3.Not(c))
+            if can_t and can_f and self.temp_depth > 0:
+                raise Unsupported('path fork under a temporary assumption '
+                                  '(guarded sub-formula of a clause)')
             if can_t and can_f:
                 d = True
                 self.pending.append(self.decisions + [False])
@@ -216,6 +236,11 @@ class Ctx:
         self.decisions.append(d)
         self.pc.append(c if d else z3.Not(c))
         return d
+
+    def assuming(self, b):
+        """context manager: temporary assumption while evaluating a guarded
+        sub-formula"""
+        return _Assuming(self, b)
 
     def event(self, kind, data=None):
         self.events.append(Event(kind, data))
